@@ -7,6 +7,7 @@ faulted ones); directory order, temp names, hash seed, copy implementation vary.
 
 import collections
 import copy
+import zlib
 import re
 
 from .. import workload
@@ -170,7 +171,20 @@ def generate(rng, tier, index):
             op["rt"]["argv"] = ["--log-file", "run%d.log" % k, "--log-level", rng.choice(["DEBUG", "INFO", "WARNING"])] + op["rt"]["argv"]
             op["logfile"] = "run%d.log" % k
         ops.append(op)
-    return {"cls": workload.draw_class(rng), "world": workload.draw_world(rng), "ops": ops}
+    sc = {"cls": workload.draw_class(rng), "world": workload.draw_world(rng), "ops": ops}
+    pick = zlib.crc32(repr((index, [sorted(op["files"]) for op in ops])).encode("utf-8"))
+    no_os_fault = not any((op.get("want_fault") or [0, ""])[1] == "oserror" for op in ops)
+    if pick % 4 == 0 and no_os_fault:
+        # documents of fix operations are known under a second name (hard link) that no
+        # operation is given and whose extension is not eligible: fixing a document must not
+        # change what that other name holds.  (Decided without drawing from the PRNG; not
+        # combined with injected OS errors, where pymarkdown's documented fallback is to
+        # overwrite the document in place.)
+        for op in ops:
+            if op["kind"] in ("fix", "api-fix_path"):
+                for name in sorted(op["docs"]):
+                    sc.setdefault("aliases", {})["zz_alias/%s.keep" % name.replace("/", "_")] = name
+    return sc
 
 
 def _plan(sc, builtin_ids):
@@ -234,7 +248,11 @@ def _request(sc, builtin_ids):
         if rt["kind"] == "cli":
             rt["argv"] = [",".join(builtin_ids) if a == "<BUILTINS>" else a for a in rt["argv"]]
         rt_ops.append(rt)
-    return {"files": files, "world": sc["world"], "cpu": 60, "ops": rt_ops}
+    request = {"files": files, "world": sc["world"], "cpu": 60, "ops": rt_ops}
+    aliases = {alias: source for alias, source in (sc.get("aliases") or {}).items() if source in files}
+    if aliases:
+        request["links"] = aliases
+    return request
 
 
 def probe_model(data):
@@ -272,6 +290,10 @@ def evaluate(sc):
     initial = {}
     for op in sc["ops"]:
         initial.update(workload.spec_to_files(op["files"]))
+    for alias, source in (sc.get("aliases") or {}).items():
+        if source in initial:
+            initial[alias] = initial[source]
+            stats["hard_link_alias_outside_the_run"] += 1
     # events per op
     events = collections.defaultdict(list)
     current = -1
@@ -423,7 +445,8 @@ def evaluate(sc):
         if name in fix_docs or name not in tree:
             continue
         if tree[name] != initial[name]:
-            out.append(violation("C10/readonly-file-modified", "C10/readonly-file-modified", {"file": name}))
+            alias = name in (sc.get("aliases") or {})
+            out.append(violation("C10/readonly-file-modified", "C10/readonly-file-modified" + ("|other-name-of-a-fixed-document" if alias else ""), {"file": name, "hard_link_of": (sc.get("aliases") or {}).get(name)}))
             break
     removal_fault = any(
         plan[i]["act"].startswith("oserror") and plan[i]["site"].split("/")[1] in ("remove", "rename") for i in (result.get("fired") or []) if i < len(plan)
